@@ -2,7 +2,7 @@
    Read-side model: Ledger/Reads.v (mirrors of the resource handlers).  postings_in s w = the postings of the stored
    transactions whose (effective | insertion) date lies in the window w = [oot, pit] (bounds included). *)
 From Coq Require Import List ZArith String Bool Lia.
-From LV Require Import Base.Util Ledger.Types Ledger.Core Ledger.VolProofs Ledger.PcvProofs Ledger.Invariants Ledger.EffProofs Ledger.Reads Ledger.ReadProofs.
+From LV Require Import Base.Util Ledger.Types Ledger.Core Ledger.VolProofs Ledger.PcvProofs Ledger.Invariants Ledger.EffProofs Ledger.Reads Ledger.ReadProofs Ledger.InsPitProofs.
 Import ListNotations.
 Open Scope Z_scope.
 
@@ -36,6 +36,15 @@ Theorem C05_effective_point_in_time : forall f h p k, f_moves f = true -> f_pcev
   vget (volumes_at (run f h) p false) k = fold_postings (postings_in (run f h) {| w_pit := Some p; w_oot := None; w_ins := false |}) k.
 Proof. exact effective_pit_is_fold. Qed.
 Print Assumptions C05_effective_point_in_time.
+
+(* (3') insertion-date point-in-time volumes (what aggregated balances with useInsertionDate and the accounts' volumes expand
+   read: first_value of post_commit_volumes over (seq desc) among the moves inserted at or before t) = the fold of the
+   postings inserted at or before t, for every history whose clock never goes backwards ([mono]: each operation runs at a
+   time >= the previous one); this rests on C03 (post-commit volumes are the forward running volumes) *)
+Theorem C05_insertion_point_in_time : forall f h T0 p k, f_moves f = true -> mono T0 h ->
+  vget (volumes_at (run f h) p true) k = fold_postings (postings_in (run f h) {| w_pit := Some p; w_oot := None; w_ins := true |}) k.
+Proof. exact insertion_pit_is_fold. Qed.
+Print Assumptions C05_insertion_point_in_time.
 
 (* (4) accounts are listed at t iff first used at or before t *)
 Theorem C05_accounts_listed_iff : forall f s p a,
